@@ -9,6 +9,8 @@
      CMD <inface> <name> <pdec> <app> <qdec>   one management Interest (see Model.v cmd)
      OBS none | ctl <code> <cargs> <nexthop|-> | data <name> <version> <kind> <payload> | panic <text> | hang | ...
      TAB <rib> <fib> <strat> <cs> <faces>      the implementation's tables after the command
+     CSPROBE size=<n> want=<n> stored=<n> capacity=<n>   after an accepted cs/config: 12 more Data were inserted into the real Content
+                                             Store created at start-up; it must hold min(stored, capacity) entries
      CODECDIFF spec=<args>!impl=<args>       (only if) the repository's parser reads a well-formed ControlParameters (protocol TLV
                                              numbers) differently from the independent decoder
      LPMBAD <name>><table hops>!=<lookup hops>+..   (only if) a lookup of a FIB entry's own name does not return that entry's next hops
@@ -328,6 +330,12 @@ let () =
                    | None -> ()) (split ',' l)
            | None -> ());
           pending_cmd := None; pending_obs := None
+        | ["CSPROBE"; sz; want; stored; cap] ->
+          (match !pending_cmd with
+           | Some (_, cln) ->
+             let v s = match String.index_opt s '=' with Some i -> String.sub s (i+1) (String.length s - i - 1) | None -> s in
+             if v sz <> v want then oracle cln "cs-effect" (String.concat "," [sz; want; stored; cap])
+           | None -> ())
         | ["CODECDIFF"; l] ->
           (match !pending_cmd with Some (_, cln) -> oracle cln "wire-numbers" l | None -> ())
         | ["LPMBAD"; l] ->
